@@ -251,6 +251,54 @@ def extra_cfgs(tier):
                 yield 'Sequence(symbolic any-sign values) w%d n%d once%d' % (w, n, once), seq_cfg(w, n, once)
 
 
+def mixed_width_cfgs(tier):
+    """every primitive leaf with all its ports at independent widths (a value wider than the wire it is
+    written to is exactly where the mask matters)"""
+    from py4hw.logic.bitwise import (Mux2, And2, Or2, Buf, Not, ShiftLeftConstant, ShiftRightConstant, Range, Bit, Repeat,
+                                      ConcatenateLSBF, ConcatenateMSBF, BitsLSBF)
+    from py4hw.logic.arithmetic import AddCarryIn, Sub, Mul, SignedMul, SignExtend, ZeroExtend, Div, Mod
+    from py4hw.logic.storage import Latch
+    quick = tier == 'quick'
+    ws = [1, 3, 4] if quick else [1, 2, 3, 5, 8]
+    W = lambda s, n, w: s.wire(n, w)
+
+    def comb(name, nin, mk):
+        for widths in itertools.product(ws, repeat=nin + 1):
+            def build(s, widths=widths):
+                ins = {'i%d' % k: W(s, 'i%d' % k, widths[k]) for k in range(nin)}
+                r = W(s, 'r', widths[nin])
+                mk(s, list(ins.values()), r)
+                return ins, {'r': r}
+            yield 'mixed %s %s' % (name, 'x'.join(map(str, widths))), {'kind': 'comb', 'build': build}
+    yield from comb('Mux2', 3, lambda s, i, r: Mux2(s, 'd', i[0], i[1], i[2], r))
+    yield from comb('And2', 2, lambda s, i, r: And2(s, 'd', i[0], i[1], r))
+    yield from comb('Or2', 2, lambda s, i, r: Or2(s, 'd', i[0], i[1], r))
+    yield from comb('Buf', 1, lambda s, i, r: Buf(s, 'd', i[0], r))
+    yield from comb('Not', 1, lambda s, i, r: Not(s, 'd', i[0], r))
+    yield from comb('ZeroExtend', 1, lambda s, i, r: ZeroExtend(s, 'd', i[0], r))
+    yield from comb('SignExtend', 1, lambda s, i, r: SignExtend(s, 'd', i[0], r))
+    yield from comb('Sub', 2, lambda s, i, r: Sub(s, 'd', i[0], i[1], r))
+    yield from comb('Mul', 2, lambda s, i, r: Mul(s, 'd', i[0], i[1], r))
+    yield from comb('SignedMul', 2, lambda s, i, r: SignedMul(s, 'd', i[0], i[1], r))
+    yield from comb('AddCarryIn', 3, lambda s, i, r: AddCarryIn(s, 'd', i[0], i[1], r, i[2]))
+    yield from comb('Latch', 2, lambda s, i, r: Latch(s, 'd', i[0], r, i[1]))
+    yield from comb('ConcatenateLSBF', 2, lambda s, i, r: ConcatenateLSBF(s, 'd', i, r))
+    yield from comb('ConcatenateMSBF', 2, lambda s, i, r: ConcatenateMSBF(s, 'd', i, r))
+    for n in (0, 1, 3, 6):
+        yield from comb('ShiftLeftConstant n%d' % n, 1, lambda s, i, r, n=n: ShiftLeftConstant(s, 'd', i[0], n, r))
+        yield from comb('ShiftRightConstant n%d' % n, 1, lambda s, i, r, n=n: ShiftRightConstant(s, 'd', i[0], n, r))
+    for hi, lo in ((0, 0), (2, 0), (2, 1), (3, 3)):
+        yield from comb('Range %d:%d' % (hi, lo), 1, lambda s, i, r, hi=hi, lo=lo: Range(s, 'd', i[0], hi, lo, r))
+    for w in ws:
+        for dw in ws:
+            for ew in (1, 2):
+                def build(s, w=w, dw=dw, ew=ew):
+                    d, q, e, r = W(s, 'd', dw), W(s, 'q', w), W(s, 'e', ew), W(s, 'rst', 1)
+                    leaf = Reg(s, 'reg', d, q, enable=e, reset=r, reset_value=(1 << w) + 1)
+                    return {'ins': {'d': d, 'e': e, 'rst': r}, 'regs': {'reg': leaf}}
+                yield 'mixed Reg d%d q%d e%d oversized reset value' % (dw, w, ew), {'kind': 'seq', 'build': build}
+
+
 def all_cfgs(tier):
     quick = tier == 'quick'
     for name, cfg in c07.cfgs(tier):
@@ -266,6 +314,8 @@ def all_cfgs(tier):
         c.pop('assume', None)
         yield 'C09/' + name, c
     for name, cfg in extra_cfgs(tier):
+        yield name, cfg
+    for name, cfg in mixed_width_cfgs(tier):
         yield name, cfg
 
 
